@@ -2,7 +2,8 @@
 (* C19 trace specification: concurrent calls of table.Dispatch with order    *)
 (* validation on, recorded per register (one "hist" block = every call made  *)
 (* on one metric key, with and without the leading dot, by all goroutines):  *)
-(*   begin c ts      call c is about to start                                *)
+(*   begin c ts exp  call c is about to start (exp: the result the driver    *)
+(*                   saw for it, used to prune the search only, see Decide)  *)
 (*   end c fwd       it returned; fwd = the point arrived at the route       *)
 (*   fin ooo bad badcall   all calls returned: increase of the out_of_order  *)
 (*                   counter, whether bad-metrics holds a record for the key *)
@@ -53,13 +54,28 @@ THist == Is("hist") /\ last' = 0 /\ pend' = <<>> /\ res' = <<>> /\ nrej' = 0 /\ 
          /\ UNCHANGED <<totrej, totdrop>>
 
 TBegin == /\ Is("begin")
-          /\ pend' = (Ev.c :> Ev.ts) @@ pend
+          /\ pend' = (Ev.c :> [ts |-> Ev.ts, exp |-> Ev.exp]) @@ pend
           /\ UNCHANGED <<last, res, nrej, rejset, totrej, totdrop>>
 
-\* internal: the critical section of a pending call
+\* internal: the critical section of a pending call.  The search is restricted to canonical linearizations; every
+\* linearization can be brought into this form without changing any result, so no explainable history is lost:
+\*  (1) a decision is taken only when the next logged event is the return of some call (it commutes with "begin"
+\*      events, and it stays inside its own call: the next return is not later than its own);
+\*  (2) a REJECTING decision is taken last before the return of its own call (the register never decreases: what is
+\*      rejected now is rejected later, and a rejection changes nothing for the others);
+\*  (3) exp is the result the driver saw for the call ("a" arrived at the route, "r" did not, "?" not said: a
+\*      blacklisted name); TEnd demands exactly that result anyway, so a decision with another result is a dead end, and
+\*      so is an accepting decision that leaves a pending call with exp = "a" and a timestamp not above it.
+\* exp only prunes the search: a trace is accepted only with a witness in which every return matches its decision.
+NextIsReturn == l <= Len(TLog) /\ Ev.ev \in {"end", "endx"}
 Decide(c) ==
   /\ c \in DOMAIN pend
-  /\ LET ts == pend[c] a == ts > last IN
+  /\ NextIsReturn
+  /\ ~(Ev.c \in DOMAIN res /\ ~res[Ev.c])       \* (2): the rejection of the returning call was the last decision
+  /\ LET ts == pend[c].ts a == ts > last IN
+     /\ (a \/ Ev.c = c)                         \* (2)
+     /\ (pend[c].exp = "a" => a) /\ (pend[c].exp = "r" => ~a)
+     /\ (a => \A p \in (DOMAIN pend) \ {c} : pend[p].exp = "a" => pend[p].ts > ts)
      /\ res' = (c :> a) @@ res
      /\ last' = IF a THEN ts ELSE last
      /\ nrej' = IF a THEN nrej ELSE nrej + 1
